@@ -87,8 +87,26 @@ def build(P, text):
         tt = k.get("tuple_type", a[3] if len(a) > 3 else i.module_global(P.module("atsim.potentials.config._common"), "PairPotentialTuple"))
         return i.call(tt, [a[1], Opaque(("definition", a[2].key()))], {})
     I.hooks[CP + ":ConfigParser._parse_multi_range"] = pmr
-    cp = I.instantiate(P.cls(CP, "ConfigParser"), [PyObjV(M.TextFile(text))], {}, None)
+    try:
+        cp = I.instantiate(P.cls(CP, "ConfigParser"), [PyObjV(M.TextFile(text))], {}, None)
+    except RaiseSignal as e:
+        raise ConstructionFailed(e.exc)
     return I, cp
+
+
+class ConstructionFailed(Exception):
+    def __init__(self, exc):
+        self.exc = exc
+
+
+def guarded_build(chk, P, rule, what, text):
+    """a well-formed file must construct; a failure is a violation, not an analysis error"""
+    try:
+        return build(P, text)
+    except ConstructionFailed as e:
+        chk.ob(rule, "%s can be read (ConfigParser construction)" % what, False, site=P.cls(CP, "ConfigParser").lookup("__init__").site(),
+               found="raises %r" % (e.exc,), expect="accepted", key="%s|construct|%s" % (rule, what))
+        return None
 
 
 def proxy_view(I, raw, section, probe_keys):
@@ -108,8 +126,11 @@ def proxy_view(I, raw, section, probe_keys):
 
 
 def raw_views(chk, P):
-    I0, cp0 = build(P, SECTIONS)
-    I1, cp1 = build(P, SECTIONS + VARIABLES)
+    r0 = guarded_build(chk, P, "C15.O1", "the file without variables", SECTIONS)
+    r1 = guarded_build(chk, P, "C15.O1", "the file with unreferenced variables", SECTIONS + VARIABLES)
+    if r0 is None or r1 is None:
+        return
+    (I0, cp0), (I1, cp1) = r0, r1
     raw0, raw1 = cp0.attrs["_config_parser"], cp1.attrs["_config_parser"]
     var_names = [k.v for k, _ in raw1.attrs["_defaults"].items.values()]
     site = P.cls(CP, "_RawConfigParser").lookup("options").site() if P.cls(CP, "_RawConfigParser").lookup("options") else P.module(CP).relpath
@@ -137,8 +158,11 @@ def _norm(v):
 
 
 def accessors(chk, P):
-    I0, cp0 = build(P, SECTIONS)
-    I1, cp1 = build(P, SECTIONS + VARIABLES)
+    r0 = guarded_build(chk, P, "C15.O2", "the file without variables", SECTIONS)
+    r1 = guarded_build(chk, P, "C15.O2", "the file with unreferenced variables", SECTIONS + VARIABLES)
+    if r0 is None or r1 is None:
+        return
+    (I0, cp0), (I1, cp1) = r0, r1
     cls = P.cls(CP, "ConfigParser")
 
     def both(name, fn):
@@ -210,8 +234,11 @@ y : 0 1
 [Species]
 A.atomic_mass : 1000.0
 """
-    It, cpt = build(P, templated)
-    Ip, cpp = build(P, plain)
+    rt = guarded_build(chk, P, "C15.O3", "the templated file", templated)
+    rp = guarded_build(chk, P, "C15.O3", "the hand-substituted file", plain)
+    if rt is None or rp is None:
+        return
+    (It, cpt), (Ip, cpp) = rt, rp
     cls = P.cls(CP, "ConfigParser")
     for pname in ("pair", "potential_form", "table_form", "species"):
         a = _norm(It.getattr(cpt, pname))
